@@ -36,8 +36,11 @@ func CheckC10(r *Report) {
 	v3Defaults(r, I31, t31)
 	t4 := make(V4Table, spec.V4NumClasses)
 	SweepV4(r, "C10", t4, false)
-	each30 := func(a spec.Assignment, o *CVSS30T) (string, string, string) { return v3CheckDiff(I30, t30, a, o) }
-	each31 := func(a spec.Assignment, o *CVSS31T) (string, string, string) { return v3CheckDiff(I31, t31, a, o) }
+	each30 := func(a spec.Assignment, o *CVSS30T) (string, string, string) { return v3CheckDiff(I30, t30, a, o, true) }
+	each31 := func(a spec.Assignment, o *CVSS31T) (string, string, string) { return v3CheckDiff(I31, t31, a, o, true) }
+	// the pair sweeps of the thorough tier take the scores in one order only (both orders are covered by bound 1 and the all-overridden sweeps)
+	pair30 := func(a spec.Assignment, o *CVSS30T) (string, string, string) { return v3CheckDiff(I30, t30, a, o, false) }
+	pair31 := func(a spec.Assignment, o *CVSS31T) (string, string, string) { return v3CheckDiff(I31, t31, a, o, false) }
 	devs := v3Devs()
 	// bound 1
 	for _, d := range devs {
@@ -52,8 +55,8 @@ func CheckC10(r *Report) {
 				if d1.m == d2.m {
 					continue
 				}
-				sweepV3Lift(r, I31, []v3Dev{d1, d2}, false, each31)
-				sweepV3Lift(r, I30, []v3Dev{d1, d2}, false, each30)
+				sweepV3Lift(r, I31, []v3Dev{d1, d2}, false, pair31)
+				sweepV3Lift(r, I30, []v3Dev{d1, d2}, false, pair30)
 			}
 		}
 		v3b = "v3.0 and v3.1 bound 2 complete (all single and pair representations x 16,588,800 classes)"
@@ -222,7 +225,7 @@ func v3Defaults[T comparable, P Object[T]](r *Report, im *Impl[T, P], t v3Table)
 }
 
 // v3CheckDiff: differential oracle of C10 for one (deviated) object.
-func v3CheckDiff[T comparable, P Object[T]](im *Impl[T, P], t v3Table, a spec.Assignment, o *T) (key, expected, observed string) {
+func v3CheckDiff[T comparable, P Object[T]](im *Impl[T, P], t v3Table, a spec.Assignment, o *T, bothOrders bool) (key, expected, observed string) {
 	tag := "v" + im.Ver.Name + "/"
 	c := v3ClassOf(a)
 	eff := [14]int8{c.AV, c.AC, c.PR, c.UI, c.S, c.C, c.I, c.A, c.E, c.RL, c.RC, c.CR, c.IR, c.AR}
@@ -242,7 +245,7 @@ func v3CheckDiff[T comparable, P Object[T]](im *Impl[T, P], t v3Table, a spec.As
 		for i := range res {
 			res[i] = im.Scores[i].F(&c1)
 		}
-		for i := len(rev) - 1; i >= 0; i-- {
+		for i := len(rev) - 1; i >= 0 && bothOrders; i-- {
 			rev[i] = im.Scores[i].F(&c2)
 		}
 	}); p != nil {
@@ -258,7 +261,7 @@ func v3CheckDiff[T comparable, P Object[T]](im *Impl[T, P], t v3Table, a spec.As
 			return tag + im.Scores[k].Name + "/depends-on-representation", fmt.Sprintf("%.1f, the %s of the canonical object with the same %s", float64(want)/10, im.Scores[k].Name, what), fmt.Sprintf("%v", res[k])
 		}
 		got, ok = score10(rev[k])
-		if !ok || int16(got) != want {
+		if bothOrders && (!ok || int16(got) != want) {
 			return tag + im.Scores[k].Name + "/depends-on-representation@after-the-later-scores-were-taken", fmt.Sprintf("%.1f, the %s of the canonical object with the same %s", float64(want)/10, im.Scores[k].Name, what), fmt.Sprintf("%v when called after %s on the same object", rev[k], im.Scores[2].Name)
 		}
 		return "", "", ""
